@@ -19,14 +19,14 @@ theorem new_spec {P n : Nat} (v : K) (hn0 : 0 < n) (hn : n ≤ P - 1) :
   refine ⟨{ divider := 1 / (n : K), value := v, window := w }, ?_, ht, rfl, ?_⟩
   · have : n ≠ 0 := by omega
     simp [SMA.new, this, winNew, hw, Res.ofExcept, Res.bind]
-  · have hnK : (n : K) ≠ 0 := by exact_mod_cast (by omega : n ≠ 0)
+  · have hnK : (n : K) ≠ 0 := by exact_mod_cast (Nat.pos_iff_ne_zero.mp hn0)
     simp only [lastN_history_nil, Spec.mean, sum_replicate_field]
     field_simp
 
 theorem next_spec {P n : Nat} {hist : List K} {s : SMA K} (x : K) (hn0 : 0 < n) (h : Inv P n hist s) :
     ∃ o s', s.next x = .ok (o, s') ∧ Inv P n (hist ++ [x]) s' ∧ o = Spec.mean n (lastN n (hist ++ [x])) := by
   obtain ⟨old, w', hp, ht', hhead⟩ := h.tracks.push hn0 x
-  have hnK : (n : K) ≠ 0 := by exact_mod_cast (by omega : n ≠ 0)
+  have hnK : (n : K) ≠ 0 := by exact_mod_cast (Nat.pos_iff_ne_zero.mp hn0)
   have hne : lastN n hist ≠ [] := by
     intro hnil; rw [hnil] at hhead; simp at hhead
   have hsum : (lastN n (hist ++ [x])).sum = (lastN n hist).sum - old + x := by
